@@ -81,7 +81,7 @@ def oracle_sound(inp, ok):
         if best > 0:
             return ("match %d: no translation makes the returned rotation carry the pattern onto the returned positions "
                     "within atol" % mi), {"idx": idx, "excess_over_tolerance": float(best), "atol": atol, "quat": quat}
-    if inp["pattern"]["name"] in g.CHIRAL:
+    if inp["pattern"]["name"].split("@")[0] in g.CHIRAL:
         keys = {tuple(sorted(i)) for i in ok["idx"]}
         for kind, grp in inp.get("decoys", []):
             if kind == "mirror" and tuple(sorted(grp)) in keys:
